@@ -78,6 +78,10 @@ CLAIMED = {
           "Fuzzing: every reader on valid, mutated and degenerate inputs must return a document, return None after a fatal log record, or raise ParseError / ValueError / struct.error / UnicodeDecodeError; every returned document must survive significant times, snapshots (cached and uncached), the generated sequence, the LCD filter and all writers under all configurations; per-case watchdog for termination.",
           "Sampling only. Allowed exception set transcribed from the property. Known findings: WebVTT ruby crash families (C11) and ruby children pruned in snapshots (I-3).",
           "DESIGN.md C18"),
+  "C15": ("model-based testing of call histories: Hypothesis-generated operation lists over a fixed universe interpreted against the real API and an abstract tree model, invariant walker after every call; bounded exhaustive enumeration of all call sequences of length <= 2 (quick) / 3 (thorough)",
+          "Histories over two documents, 67 named objects and 14 operations with valid and invalid arguments; after every accepted or rejected call: link consistency, acyclicity, single parent, one document per tree, content model (ruby / rtc patterns), region references are the registered objects, stored values valid, rejected calls leave the model unchanged, accepted calls have the modelled effect. All sequences up to the bound over a 92-call alphabet are enumerated.",
+          "Histories are data interpreted by the check (equivalent to a rule-based state machine; the whole history shrinks as one value). Known findings: region references of elements that are not below the body cannot be maintained (orphan forms).",
+          "DESIGN.md C15"),
 }
 NOT_APPLICABLE = {}
 
